@@ -72,6 +72,7 @@ type target struct {
 	con   *Contract
 	iface *Contract
 	sweep bool
+	sweepProp string // the property whose sweep selected this function
 	implOf types.Type // concrete type whose method set is being checked (promoted methods: the outer type)
 }
 
@@ -210,7 +211,7 @@ func (e *Engine) targetsFor(prop string) ([]target, []string) {
 				continue
 			}
 			have[fn] = true
-			out = append(out, target{fn: fn, con: e.contracts[keyOfFunction(fn)], sweep: true})
+			out = append(out, target{fn: fn, con: e.contracts[keyOfFunction(fn)], sweep: true, sweepProp: sw.Prop})
 		}
 	}
 	return out, problems
@@ -329,6 +330,17 @@ func (e *Engine) runTargets(ts []target, mode string) *checkResult {
 			if len(o.Props) == 0 {
 				o.Props = fx.con.Props
 			}
+		}
+		if t.sweep && t.con != nil && !containsStr(t.con.Props, t.sweepProp) {
+			// a function swept for its safety obligations: the postconditions of its own contract belong to the
+			// properties that contract names, not to the sweeping property
+			var keep []*Obligation
+			for _, o := range fx.obls {
+				if o.Class != "post" {
+					keep = append(keep, o)
+				}
+			}
+			fx.obls = keep
 		}
 		obls = append(obls, fx.obls...)
 		if len(fx.abstracted) > 0 {
@@ -498,6 +510,15 @@ func cmdVC(args []string) int {
 // ---------------------------------------------------------------------------
 // check: the registered command
 // ---------------------------------------------------------------------------
+
+func containsStr(xs []string, x string) bool {
+	for _, y := range xs {
+		if y == x {
+			return true
+		}
+	}
+	return false
+}
 
 // lookupKnown: findings are keyed by obligation name; a finding recorded without the @retN / @bN suffix covers every
 // return / back edge of that obligation
